@@ -15,6 +15,8 @@ NAT_NOTE = (
 
 INSTANCE_NOTE = (
     "The concrete block series of matrices with the Cauchy product and entry masks form an instance of the Lean setting (mechanised: PV/Model.lean, "
-    "MatrixModel.lean); for operator-valued series (NumberOrderedForm) this is assumed.  A-MATH (not mechanised): each transformation named in the property is a "
+    "MatrixModel.lean); the series-level construction (PV.Model.filtered / blocks / liftNH / lift) holds for ANY coefficient star algebra with complementary block "
+    "projections and a coefficient-level solver, so for operator-valued series (NumberOrderedForm) only the coefficient-level facts are assumed (term filters are "
+    "complementary projections: filter_terms contract; solve_scalar solves the Sylvester equation: solve_scalar contract).  A-MATH (not mechanised): each transformation named in the property is a "
     "homomorphism of such instances: "
 )
